@@ -260,11 +260,15 @@ def _teardown_pc(s):
 
 
 def _pc_post(s):
-    out = G("outcome")
     me, old = s.self, s.old(s.self)
     r = s.result
+    if not has_G("outcome"):
+        # the generator was not advanced: only allowed while the target is crashed/paused (C06),
+        # and then nothing is emitted
+        return s.old(old.target)._crashed & ((len(r) == 0) if isinstance(r, list) else (slen(r) == 0))
+    out = G("outcome")
     sends = G("sends")
-    ok = (len(sends) == 1)                           # the generator is advanced exactly one step
+    ok = (len(sends) == 1) & Not(s.old(old.target)._crashed)    # advanced exactly one step, and only when the target is up
     if out in ("float", "int", "tuple-none", "tuple-event", "tuple-list"):
         effs = G("effects") if has_G("effects") and out in ("tuple-event", "tuple-list") else []
         n_eff = slen(effs) if not isinstance(effs, list) else len(effs)
